@@ -43,6 +43,7 @@ type result struct {
 	MaxProcs    []int    `json:"gomaxprocs"`
 	Versions    int64    `json:"versions_seen"`
 	DurationSec float64  `json:"duration_s"`
+	Stuck       string   `json:"stuck"`
 }
 
 func main() {
@@ -250,7 +251,23 @@ func main() {
 		time.Sleep(slice)
 	}
 	close(stop)
-	wg.Wait()
+	// liveness: every worker finishes its current render or registration and leaves.  Workers that
+	// do not come back within ten seconds are blocked inside the engine (a lock order, a lock taken
+	// twice): that is reported, with the stacks, instead of waiting for ever.
+	done := make(chan struct{})
+	go func() { wg.Wait(); close(done) }()
+	select {
+	case <-done:
+	case <-time.After(10 * time.Second):
+		stacks := make([]byte, 1<<20)
+		stacks = stacks[:runtime.Stack(stacks, true)]
+		res.Stuck = fmt.Sprintf("renderers and writers were told to stop after %d renders and %d registrations, and some never returned from the engine; goroutines:\n%s",
+			atomic.LoadInt64(&res.Renders), atomic.LoadInt64(&res.Registers), stacks)
+		res.DurationSec = time.Since(start).Seconds()
+		b, _ := json.Marshal(res)
+		fmt.Println(string(b))
+		os.Exit(3)
+	}
 	res.DurationSec = time.Since(start).Seconds()
 	seen.Range(func(_, _ any) bool { res.Versions++; return true })
 	b, _ := json.Marshal(res)
